@@ -844,6 +844,24 @@ async fn dispatch(op: String, a: Value) -> Value {
                 Err(e) => json!({"err": e.to_string()}),
             }
         }
+        // a start attempt that fails after the start-up map updates (as Redirector::start_impl's retry loop produces when a later
+        // step fails): its own BpfObject, the same updates, then the object is dropped
+        "bpf_failed_start_attempt" => {
+            let path = PathBuf::from(s(&a, "path"));
+            match agentlib::redirector::BpfObject::from_ebpf_file(&path) {
+                Ok(mut o) => {
+                    let pid = std::process::id();
+                    let r1 = o.update_skip_process_map(pid).map_err(|e| e.to_string());
+                    use agentlib::common::constants as c;
+                    let r2 = o
+                        .update_policy_elem_bpf_map("WireServer endpoints", u(&a, "local_port", 3080) as u16, c::WIRE_SERVER_IP_NETWORK_BYTE_ORDER, c::WIRE_SERVER_PORT)
+                        .map_err(|e| e.to_string());
+                    drop(o);
+                    json!({"skip_map_update": r1.is_ok(), "policy_update": r2.is_ok()})
+                }
+                Err(e) => json!({"err": e.to_string()}),
+            }
+        }
         "bpf_startup_maps" => {
             // what Redirector::start_internal does before attaching: skip map + one policy element per endpoint
             let obj = match BPF.get() { Some(o) => o, None => return json!({"err": "not loaded"}) };
